@@ -29,11 +29,23 @@ def rewrite(src):
     counts = {}
     fn = None
     lines = src.split("\n")
+    closers = {}  # line index -> replacement lines (the end of a construct that was opened by a rewritten line)
+    nlabel = [0]
 
     def hit(kind):
         counts.setdefault(fn, []).append(kind)
 
+    def block_end(start, ind, tail="}"):
+        """index of the line that closes the block opened at line `start` (gofmt: same indentation)"""
+        for j in range(start + 1, len(lines)):
+            if lines[j] == ind + tail:
+                return j
+        return None
+
     for idx, line in enumerate(lines):
+        if idx in closers:
+            out.extend(closers[idx])
+            continue
         m = re.match(r"^func (?:\(\w+ \*?P\) )?(\w+)\(", line)
         if m:
             # functions the model does not know (helpers a changed tree may have) get the same yields under the
@@ -76,16 +88,53 @@ def rewrite(src):
             continue
         if re.match(r"^\s*select \{\s*$", line):
             nxt = lines[idx + 1] if idx + 1 < len(lines) else ""
-            m = re.match(r"^\s*case (?:\w+(?:, \w+)? :?= )?<-([\w.]+):", nxt) or re.match(r"^\s*case ([\w.]+) <- \w+:", nxt)
+            m = re.match(r"^\s*case (?:\w+(?:, \w+)? :?= )?<-(.+):\s*$", nxt) or re.match(r"^\s*case ([\w.]+) <- .+:\s*$", nxt)
+            end = block_end(idx, ind)
+            blocking = end is not None and not any(lines[j] == ind + "default:" for j in range(idx + 1, end))
+            if blocking:
+                # a select without default waits: under the cooperative scheduler it becomes a poll that parks
+                # again when no case is ready (as a failed lock attempt does); a changed tree may wait for a
+                # context, a timer or a result channel here (the unchanged pool.go has no such select)
+                hit("wait")
+                nlabel[0] += 1
+                lab = "vcoopWait%d" % nlabel[0]
+                out.append("%s%s:" % (ind, lab))
+                out.append('%svcoop.Point("%s.wait", %s)' % (ind, fn, m.group(1) if m else "nil"))
+                out.append(line)
+                closers[end] = [ind + "default:", ind + "\tvcoop.Blocked()", ind + "\tgoto " + lab, ind + "}"]
+                continue
             if m:
                 hit("sel")
                 out.append('%svcoop.Point("%s.sel", %s)' % (ind, fn, m.group(1)))
             out.append(line)
             continue
+        m = re.match(r"^\s*<-(.+)$", line)
+        if m:
+            # a bare blocking receive (`<-ctx.Done()`, `<-done`): the same poll
+            hit("wait")
+            nlabel[0] += 1
+            lab = "vcoopWait%d" % nlabel[0]
+            out += ["%s%s:" % (ind, lab), '%svcoop.Point("%s.wait", %s)' % (ind, fn, m.group(1)), ind + "select {",
+                    "%scase <-%s:" % (ind, m.group(1)), ind + "default:", ind + "\tvcoop.Blocked()", ind + "\tgoto " + lab, ind + "}"]
+            continue
         m = re.match(r"^\s*go (\w+)\.Close\(\)\s*$", line)
         if m:
             hit("go")
             out.append('%svcoop.Go("cc", func() { %s.Close() })' % (ind, m.group(1)))
+            continue
+        if re.match(r"^\s*go func\(\) \{\s*$", line):
+            # any other goroutine the pool starts (a changed tree: a probe, a watchdog, a deferred close) is a
+            # scheduled task too — otherwise it would run outside the scheduler and call into it
+            end = block_end(idx, ind, "}()")
+            if end is not None:
+                hit("gofn")
+                out.append('%svcoop.Go("", func() {' % ind)
+                closers[end] = [ind + "})"]
+                continue
+        m = re.match(r"^\s*go ([\w.]+\(.*\))\s*$", line)
+        if m:
+            hit("gofn")
+            out.append('%svcoop.Go("", func() { %s })' % (ind, m.group(1)))
             continue
         if re.match(r"^\s*p\.cleanupStop <- struct\{\}\{\}\s*$", line):
             hit("stop")
@@ -169,7 +218,10 @@ def run(c):
         "a pooled hand-out is timed at the channel receive that removed the connection from the pool (its linearisation point), not at the return of Get",
         "the idle stamp of a connection (LastUseAt) is written by its user and by cfg.New only, never by Usable() (C19_usable_keeps_idle_stamp, C19_pool_never_restamps); "
         "the real mxConn is held to this by the monitor of the remote-target harness (C19/usable-moved-idle-stamp) and by the T1 fingerprint of mxConn.Usable/LastUseAt/Close",
-        "real mxConn objects are exercised on sequential histories only (one delivery step at a time); the interleavings are explored with instrumented connection objects",
+        "real mxConn objects are exercised on sequential histories only (one delivery step at a time; the one overlap is a delivery whose context ends while the next hop withholds "
+        "its answer to the RSET probe of pool.Get); the interleavings are explored with instrumented connection objects",
+        "cancellation: one context per worker / delivery, done when the schedule says so (Who.cancel; Canceled, or DeadlineExceeded for contexts with a deadline) and never live again; "
+        "pool.go passes the context to cfg.New only, and cfg.New (a dial) fails under a context that is done — the harness's cfg.New and the real dialer of the remote target do",
     ]
     c.trusted_base += [
         "checks/c19.py rewriter (textual insertion of scheduler yields into pool.go at check time) and harness/internal/verifshim/vcoop (cooperative scheduler)",
@@ -181,8 +233,11 @@ def run(c):
         "targeted (Get parked after unlock while buckets expire / are swept / pool shuts down); the REAL pool.go (yields inserted before every lock/channel op) runs each schedule "
         "step by step under a deterministic cooperative scheduler; after every step the synchronisation point reached, and at the end the whole pool state, are compared with the Lean model's; "
         "full-map scenarios (MaxKeys live buckets with several idle connections, then returns and gets for further keys inside the lifetime); "
+        "cancellation: the context of a worker is cancelled / times out as a scheduler decision (entry x<w>) at any point of the schedule, and in the cancel scenarios after a chosen number of steps "
+        "of a Get on a bucket with idle (partly broken / expired) connections — before Get, at the lock, at the select, inside Usable(), inside the bucket drop, at whatever yield a changed tree has in between "
+        "(goroutines and waiting selects of a changed pool.go are scheduled too); "
         "plus sequential histories of the REAL remote target (real remoteDelivery / mxConn / smtpconn over loopback SMTP servers for 3 domains, real pool, manual clock): deliveries opened and ended in any order, "
-        "ticks around the idle lifetime (late returns), server-side connection drops, sweeps, MaxKeys 1/2/5000, conn_max_idle_count 0-3, conn_max_idle_time 1-150 s — compared with the model run sequentially (`C19 mx` lines); "
+        "ticks around the idle lifetime (late returns), server-side connection drops, sweeps, deliveries whose context is cancelled / times out while the next hop withholds its answer to the RSET probe of pool.Get (op x<k>), MaxKeys 1/2/5000, conn_max_idle_count 0-3, conn_max_idle_time 1-150 s — compared with the model run sequentially (`C19 mx` lines); "
         "distinct = distinct (case, schedule) lines",
         explanation="theorems over all schedules, any number of workers/keys; model tied to pool.go by step-level lockstep runs of the real code, and to the real connection type by sequential runs of the real remote target; "
         "independent Go monitors on connection objects (own records of owner, key and time of the last Return, last use; what the scripted servers saw)",
